@@ -51,6 +51,7 @@ use astria_eyre::{
     eyre_to_anyhow,
 };
 use cnidarium::{
+    StateDelta,
     StateRead,
     StateWrite,
 };
@@ -382,9 +383,20 @@ impl AppHandlerExecute for Ics20Transfer {
             .map_err(|err| eyre_to_anyhow(err).context("failed to read upgrade info"))?
             .is_some();
 
-        let ack = match receive_tokens(&mut state, &msg.packet).await {
-            Ok(()) => TokenTransferAcknowledgement::success(),
+        // Execute the transfer on a scratch delta: if any step fails, the packet is acknowledged
+        // with an error and none of the steps before the failing one (e.g. a bridge deposit that was
+        // already cached and emitted as an event) may take effect.
+        let mut delta = StateDelta::new(&mut state);
+        let ack = match receive_tokens(&mut delta, &msg.packet).await {
+            Ok(()) => {
+                let (_, events) = delta.apply();
+                for event in events {
+                    state.record(event);
+                }
+                TokenTransferAcknowledgement::success()
+            }
             Err(e) => {
+                drop(delta);
                 tracing::warn!(
                     error = AsRef::<dyn std::error::Error>::as_ref(&e),
                     "failed to execute ics20 transfer"
